@@ -172,7 +172,8 @@ def errTag : Err → String
   | .unknownKey => "unknown-key" | .noResponse => "no-response" | .responseMismatch => "response-mismatch"
 
 def serrTag : SErr → String
-  | .invalidSignature => "bad-signature" | .badClass => "bad-class" | .limitExceeds => "limit-exceeds"
+  | .invalidSignature => "bad-signature" | .overrideTooLow => "override-too-low"
+  | .badClass => "bad-class" | .limitExceeds => "limit-exceeds"
   | .badCsr => "bad-csr" | .unknownKey => "unknown-key"
 
 /-- One stored TA proxy command → model command. -/
